@@ -7,8 +7,9 @@ open Model
 let z = z_of_int
 let iz = int_of_z
 exception Abort
+exception Wrong
 
-let get r = match r with Ok (a, w) -> (a, w) | NullCrew -> raise Abort | SwapPre -> raise Abort | WrongMgr -> failwith "wrongmgr"
+let get r = match r with Ok (a, w) -> (a, w) | NullCrew -> raise Abort | SwapPre -> raise Abort | WrongMgr -> raise Wrong
 
 let traits_of s =
   if s = "N" then None else
@@ -113,7 +114,7 @@ let run_crew k multi wko tr op ss ts sid tid aid post =
     | "reuse" -> let (s', w') = get (cc_insert k multi s1 (z 400001) w2) in
                  let (s'', w'') = get (cc_insert k multi s' (z 400004) w') in (s'', f, w'')
     | _ -> failwith "post" in
-  Printf.printf "%s S2=%s s2c=%s F=%s fc=%s\n" line1 (ids (mgr_of s2)) (show (il (items_of s2)))
+  Printf.printf "%s S2=%s s2c=%s F=%s fc=%s E=0\n" line1 (ids (mgr_of s2)) (show (il (items_of s2)))
     (if useF then ids (mgr_of f2) else "-") (if useF then show (il (items_of f2)) else "[]")
 
 let run_arr ic isvec tr op ss ts sid tid aid post =
@@ -167,7 +168,7 @@ let run_arr ic isvec tr op ss ts sid tid aid post =
     | "reuse" -> let (s', w') = arr_insert icn s1 (z 400001) w2 in
                  let (s'', w'') = arr_insert icn s' (z 400004) w' in (s'', f, w'')
     | _ -> failwith "post" in
-  Printf.printf "%s S2=%d s2c=%s F=%s fc=%s\n" line1 (iz s2.amgr) (show (il s2.aitems))
+  Printf.printf "%s S2=%d s2c=%s F=%s fc=%s E=0\n" line1 (iz s2.amgr) (show (il s2.aitems))
     (if useF then string_of_int (iz f2.amgr) else "-") (if useF then show (il f2.aitems) else "[]")
 
 let () = iter_lines (fun line ->
@@ -179,5 +180,5 @@ let () = iter_lines (fun line ->
       (match kind_of kind with
        | Crew (k, multi, wko) -> run_crew k multi wko tr op ss ts sid tid aid post
        | Arr (ic, isvec) -> run_arr ic isvec tr op ss ts sid tid aid post)
-    with Abort -> print_endline "abort" | Failure m -> print_endline ("model-error:" ^ m))
+    with Abort -> print_endline "abort" | Wrong -> print_endline "ok E=1" | Failure m -> print_endline ("model-error:" ^ m))
   | _ -> print_endline "?")
